@@ -227,6 +227,19 @@ func c14(tier string) []*explore.Scenario {
 		out = append(out, c14CloseInFlight(ctxRace, bound))
 	}
 	// batches of RPCs in flight at once (all kinds, mixed outcomes), repeated from the state the previous batch left
+	// the same fixed-point argument from states reached by earlier RPCs (not only from a fresh connection)
+	{
+		var base []*explore.Scenario
+		for _, k := range kinds {
+			for _, o := range []string{"ok", "herr", "cancel1", "reset", "openfail", "cancelsend"} {
+				if k == "Unary" && (o == "reset" || o == "cancel1" || o == "cancelsend") {
+					continue
+				}
+				base = append(base, c14One([][2]string{{k, o}}, 1))
+			}
+		}
+		out = append(out, withHistory(historyKinds(tier), base...)...)
+	}
 	out = append(out, c14Batch(8, 2, 1), c14Batch(16, 2, 0), c14Batch(32, 2, 0))
 	// RPCs pending on the server at once (more than the 8 workers of the unary pool; up to 32 in all)
 	out = append(out, c14Pending(8, 0, 2, 0), c14Pending(9, 0, 2, 0), c14Pending(12, 4, 3, 0), c14Pending(24, 8, 2, 0), c14Pending(3, 1, 1, 1))
